@@ -43,6 +43,9 @@ def main():
     except core.MachineryError as e:
         print("MACHINERY-ERROR property=%s %s" % (args.pid, e))
         rc = 2
+        if ctx.violations:       # a violation had already been established before the failure
+            core.write_evidence(ctx, level=getattr(mod, "LEVEL", "model_checking"), rule="(run aborted after the violation)")
+            rc = 1
     except Exception:
         traceback.print_exc()
         print("MACHINERY-ERROR property=%s unexpected exception" % args.pid)
